@@ -1,6 +1,7 @@
 package wal
 
 import (
+	"errors"
 	"fmt"
 	"github.com/thomasjungblut/go-sstables/recordio"
 	"path/filepath"
@@ -93,7 +94,8 @@ func setupNextWriter(a *Appender) error {
 
 	err = currentWriter.Open()
 	if err != nil {
-		return fmt.Errorf("error while opening new wal appender writer under '%s': %w", writerPath, err)
+		// the writer owns the file since it was created
+		return errors.Join(fmt.Errorf("error while opening new wal appender writer under '%s': %w", writerPath, err), currentWriter.Close())
 	}
 
 	a.nextWriterNumber++
